@@ -158,7 +158,7 @@ def build_scripts(ctx, prop, tier):
                     args=["-dump", "dot,actionlabels", "graph"], timeout=300, heap="4g", expect_ok=True)
         inits, nodes, edges = vlib.parse_dot(os.path.join(r["dir"], "graph.dot"))
         paths, nedges = vlib.transition_cover(inits, nodes, edges, maxlen=40, rng=rng,
-                                              limit=1500 if tier == "quick" else None)
+                                              limit=1500 if tier == "quick" else 12000)   # thorough: <= ~2 M events in all
         base = fps_for(n, trig, mn, mx, rng)
         base.update(const=const, win=[600, 840], shadow=(prop == "C17"))
         for p in paths:
